@@ -24,7 +24,7 @@ ASSUMPTIONS = [
     "off-grid measurement points are not asserted (spectral interpolation has no independent oracle)",
     "shooting growth bounded by exp(13.8) by construction",
 ]
-TOLERANCES = {"all": "(1e-12 + 256*eps*G) * max|field|"}
+TOLERANCES = {"all": "(1e-12 + 4096*eps*G) * max|field|"}
 BUDGET = {"quick": dict(examples=400, shards=1), "thorough": dict(examples=2500, shards=16)}
 
 
@@ -75,9 +75,13 @@ def check_case(case):
     def roll(a, s):
         return np.roll(np.roll(a, s[1], axis=-2), s[0], axis=-1)
 
+    fs0, cs0 = tol.natural_scales(q0, z, prof, case["bg"])
+
     def cmp(name, a, b, extra=0.0):
         a, b = sut.as3d(a), sut.as3d(b)
-        scale = max(tol.maxabs(a), tol.maxabs(b), extra)
+        # footprints and unit responses have their own O(1/N) magnitude; dispersion fields inherit the source's
+        floor = 0.0 if "footprint" in name else (cs0 if "conc" in name else fs0)
+        scale = max(tol.maxabs(a), tol.maxabs(b), extra, floor)
         err = tol.maxabs(a - b)
         if not err <= rel * scale:
             out.bad(f"{name}: max difference {err:.3e} > {rel * scale:.3e} (shift {(sx, sy)}, tower {(im, jm)}, grid {nx}x{ny})")
@@ -113,7 +117,7 @@ def check_case(case):
         cmp("re-centred conc vs roll(conc, centre - tower)", cc, roll(sut.as3d(c0), s), abs(case["bg"]))
         cmp("re-centred flux vs roll(flux, centre - tower)", fc, roll(sut.as3d(f0), s))
         fcc = sut.as3d(fc)[:, ny // 2, nx // 2]
-        if not tol.maxabs(fcc - sut.as3d(f0)[:, jm, im]) <= rel * tol.maxabs(f0):
+        if not tol.maxabs(fcc - sut.as3d(f0)[:, jm, im]) <= rel * max(tol.maxabs(f0), fs0):
             out.bad("value at the domain centre of the re-centred run is not the field value at the measurement point")
 
     # 5. with a halo the returned window is a crop of the padded periodic domain: moving the tower by whole
